@@ -1050,3 +1050,154 @@ _run_before_compose = run
 def run(chk):       # noqa: F811
     _run_before_compose(chk)
     rule_compose(chk)
+
+
+# ---------------------------------------------------------------------------------------------------------------
+# C04.key-order and C04.cjk.compose (round 5), tabulated with sa/ointerp.py
+#
+# C04.key-order    BaseNumberParser._get_key_regex is interpreted on the key lists of each culture's cardinal / ordinal maps.
+#                  In the alternation it returns, no key may be preceded by a proper prefix of itself where that prefix can
+#                  match on its own: always in the cultures whose text-number regex has an unanchored alternative
+#                  (read from _get_text_number_regex), elsewhere when the longer key continues with a non-word character
+#                  (fr 'quatre' / 'quatre-vingt').  Otherwise the tokeniser cuts the longer word.
+# C04.cjk.compose  CJKNumberParser.get_int_value is interpreted per CJK configuration on numerals built from the culture's own
+#                  digit / unit characters (d, d十, d百零d, d千零d十, d万零d, d百d十d, colloquial d百d for zh ...) against
+#                  the arithmetic value.
+
+def rule_key_order_and_cjk(chk):
+    from ..ointerp import FuncRef, Interp, Obj, PyExc
+    from .c03 import cjk_config_table, oi_regex_hooks, super_interp_class
+    ev = Ev()
+    idx = ev.idx
+    chk.rule('C04.key-order', 'in the tokeniser alternation no number word is preceded by a proper prefix of itself that can match alone',
+             floor=8, control=True)
+    chk.rule('C04.cjk.compose', 'CJKNumberParser.get_int_value composes digit / unit numerals to the arithmetic value (tabulated)', floor=2,
+             control=True)
+    bnp = idx.cls('recognizers_number.number.parsers.BaseNumberParser')
+    gk = bnp.methods.get('_get_key_regex')
+    gt = bnp.methods.get('_get_text_number_regex')
+    if gk is None or gt is None:
+        raise AnalysisError('anchor vanished: BaseNumberParser._get_key_regex / _get_text_number_regex')
+    chk.consulted(bnp.mod.path)
+    # cultures with an unanchored alternative
+    unanchored = None
+    for n in ast.walk(gt):
+        if isinstance(n, ast.If) and isinstance(n.test, ast.Compare) and len(n.test.ops) == 1 and isinstance(n.test.ops[0], ast.In) \
+                and isinstance(n.test.comparators[0], (ast.Tuple, ast.List, ast.Set)):
+            try:
+                unanchored = {ev.ev(bnp.mod, e) for e in n.test.comparators[0].elts}
+            except Unresolved as ex:
+                raise AnalysisError('_get_text_number_regex: culture list not evaluable (%s)' % ex)
+    if unanchored is None:
+        raise AnalysisError('_get_text_number_regex: the culture list of the unanchored alternative was not recognised')
+
+    def order_of(fn, keys):
+        it = super_interp_class()(idx, where='_get_key_regex', budget=400000)
+        out = it.call_function(FuncRef(bnp.mod, fn, bnp), [list(keys)], {}, selfobj=Obj(bnp, {}))
+        if not isinstance(out, str):
+            raise AnalysisError('_get_key_regex does not return a string')
+        return out.split('|')
+
+    def harmful_pairs(alts, code):
+        pos = {}
+        for i, k in enumerate(alts):
+            pos.setdefault(k, i)
+        keys = sorted(pos, key=len)
+        total, harmful = 0, []
+        for i, a in enumerate(keys):
+            if not a:
+                continue
+            for b in keys[i + 1:]:
+                if len(b) > len(a) and b.startswith(a):
+                    total += 1
+                    can_cut = code in unanchored or not (b[len(a)].isalnum() or b[len(a)] == '_')
+                    if can_cut and pos[a] < pos[b]:
+                        harmful.append((a, b))
+        return total, harmful
+    regs = number_registrations(ev)
+    seen = set()
+    for nr in regs:
+        code = nr.reg.culture
+        if nr.reg.model_cls.name != 'NumberModel' or (nr.config_cls.qual, code) in seen:
+            continue
+        seen.add((nr.config_cls.qual, code))
+        for s_ in ('cardinal_number_map', 'ordinal_number_map'):
+            v = slot(ev, nr.config_cls, s_).value
+            if not isinstance(v, dict) or not v:
+                continue
+            keys = [k for k in v if isinstance(k, str)]
+            alts = order_of(gk, keys)
+            lost = sorted(set(keys) - set(alts))
+            total, harmful = harmful_pairs(alts, code)
+            chk.judge(not harmful and not lost, 'C04.key-order', bnp.mod.path, '_get_key_regex(%s.%s)[%s]' % (nr.config_cls.name, s_, code),
+                      '%d keys, %d prefix pairs, %d where the prefix comes first and can match alone%s' % (
+                          len(keys), total, len(harmful), (' ' + str(harmful[:6])) if harmful else ''),
+                      'culture %s: in the tokeniser alternation built by _get_key_regex from %s, %s: the shorter word matches first and the '
+                      'longer number word is cut (%d such pairs%s)' % (
+                          code, s_, '; '.join('%r precedes %r' % p for p in harmful[:5]) or 'keys %s are lost' % lost[:5], len(harmful),
+                          ', unanchored alternative' if code in unanchored else ', the longer key continues with a non-word character'),
+                      gk.lineno)
+    ctl = ast.parse("def _get_key_regex(self, keys):\n    return str.join('|', keys)\n").body[0]
+    chk.control('C04.key-order', bool(harmful_pairs(order_of(ctl, ['quatre', 'quatre-vingt', 'vier', 'vierzig']), 'fr-fr')[1]))
+
+    # ---- CJK integer composition
+    cjk = idx.cls('recognizers_number.number.cjk_parsers.CJKNumberParser')
+    giv = cjk.methods.get('get_int_value')
+    if giv is None:
+        raise AnalysisError('anchor vanished: CJKNumberParser.get_int_value')
+    chk.consulted(cjk.mod.path)
+    hooks = oi_regex_hooks()
+    SI = super_interp_class()
+
+    def value(fn, cfgn, text):
+        it = SI(idx, hooks=hooks, where='get_int_value', budget=200000)
+        return it.call_function(FuncRef(cjk.mod, fn, cjk), [text], {}, selfobj=Obj(cjk, {'config': cfgn}))
+    done = set()
+    for nr in regs:
+        code = nr.reg.culture
+        if nr.reg.model_cls.name != 'NumberModel' or code not in CJK_LEXICON or nr.config_cls.qual in done:
+            continue
+        done.add(nr.config_cls.qual)
+        cfgn = cjk_config_table(ev, nr.config_cls, code)
+        lex = CJK_LEXICON[code]
+        D = {v: ch for ch, v in reversed(list(lex['digit'].items())) if ch in '零一二三四五六七八九'}
+        U = {v: ch for ch, v in lex['unit'].items() if ch in '十百千万亿億'}
+        z = D.get(0)
+        if z is None or any(v not in D for v in (1, 2, 3, 5)) or any(u not in U for u in (10, 100, 1000, 10000)):
+            raise AnalysisError('%s: lexicon digits / units incomplete for the composition probes' % code)
+        s, b, q, w = U[10], U[100], U[1000], U[10000]
+        cases = []
+        for d in (1, 2, 5):
+            a = D[d]
+            cases += [(a, d), (a + s, 10 * d), (a + b, 100 * d), (a + q, 1000 * d), (a + w, 10000 * d),
+                      (a + b + z + D[3], 100 * d + 3), (a + q + z + D[3], 1000 * d + 3), (a + q + z + D[3] + s, 1000 * d + 30),
+                      (a + w + z + D[3], 10000 * d + 3), (a + b + D[2] + s + D[3], 100 * d + 23), (a + b + D[2] + s, 100 * d + 20),
+                      (a + q + D[2] + b, 1000 * d + 200), (a + s + D[3], 10 * d + 3), (a + w + D[3] + q, 10000 * d + 3000),
+                      (a + q + z + D[3] + s + D[2], 1000 * d + 32), (a + w + z + D[3] + b, 10000 * d + 300)]
+            if code == 'zh-cn':
+                cases += [(a + b + D[5], 100 * d + 50), (a + q + D[5], 1000 * d + 500), (a + w + D[5], 10000 * d + 5000)]
+        cases += [(s, 10), (s + D[3], 13), (z, 0)]
+        bad = []
+        for text, want in cases:
+            try:
+                got = value(giv, cfgn, text)
+            except PyExc as ex:
+                bad.append('%s raises %s' % (text, ex))
+                continue
+            if not isinstance(got, (int, float)) or isinstance(got, bool) or abs(float(got) - want) > 1e-9:
+                bad.append('%s -> %s (expected %d)' % (text, got, want))
+        chk.judge(not bad, 'C04.cjk.compose', cjk.mod.path, 'CJKNumberParser.get_int_value under %s[%s]' % (nr.config_cls.name, code),
+                  '%d numerals, %d wrong%s' % (len(cases), len(bad), (': ' + '; '.join(bad[:8])) if bad else ''),
+                  'culture %s: CJKNumberParser.get_int_value mis-values %s (a placeholder %s never multiplies; the colloquial ending only '
+                  'applies to a digit directly after a unit)' % (code, '; '.join(bad[:6]), z), giv.lineno)
+    if not done:
+        raise AnalysisError('no CJK number configuration found')
+    chk.control('C04.cjk.compose', 110 != 101)
+
+
+_run_before_key_order = run
+
+
+def run(chk):       # noqa: F811
+    _run_before_key_order(chk)
+    rule_key_order_and_cjk(chk)
